@@ -1,7 +1,7 @@
 (** C13 (package rendering is deterministic and loses or duplicates no object): property theorems.
     This file contains statements only; every proof is `exact <lemma>`. *)
 From Coq Require Import List NArith Bool Permutation Sorted.
-From PKO Require Import Collector Templates CollectorProofs.
+From PKO Require Import Collector Templates CollectorProofs Structure StructureProofs.
 From PKOCorr Require Import C13Corr.
 Import ListNotations.
 Local Open Scope N_scope.
@@ -212,6 +212,46 @@ Theorem C13_tmodel_enum_invariant :
     tmodel (init, tmpls, striptab, final) = tmodel (init', tmpls, striptab, final).
 Proof. exact tmodel_enum_invariant. Qed.
 Print Assumptions C13_tmodel_enum_invariant.
+
+(** Structure rule: which files of a raw package are rendered. Every path has exactly one owner -
+    the root package, one component, or nobody (it sits directly in the components folder). *)
+Theorem C13_structure_partition :
+  forall raw p, In p raw ->
+    exists o, In p (select o raw) /\ forall o', In p (select o' raw) -> o' = o.
+Proof. exact owner_partition. Qed.
+Print Assumptions C13_structure_partition.
+
+(** Names that merely start like the components folder belong to the root: any first segment other
+    than exactly "components" (components.yaml, components-x/..., Components/..., componentsfoo/...),
+    and any single segment; what lies under components/c/ belongs to c. *)
+Theorem C13_structure_prefix_only_names_root :
+  (forall s r, s <> COMPONENTS -> owner_of (s :: r) = Root) /\
+  (forall s, owner_of [s] = Root) /\
+  (forall c x r, owner_of (COMPONENTS :: c :: x :: r) = Comp c).
+Proof. exact (conj prefix_only_names_root (conj single_segment_root component_owner)). Qed.
+Print Assumptions C13_structure_prefix_only_names_root.
+
+(** The segment rule is the string rule of the code: rootFiles' `not HasPrefix(path, "components/")`
+    and componentFiles' "under components/<c>/", for paths whose segments contain no '/'. *)
+Theorem C13_structure_string_rule :
+  (forall p, no_slash p -> owner_eqb (owner_of p) Root = go_root_file (flatten p)) /\
+  (forall p c, no_slash p -> ~ In SLASH c ->
+               owner_eqb (owner_of p) (Comp c) = go_component_file c (flatten p)).
+Proof. exact (conj root_rule component_rule). Qed.
+Print Assumptions C13_structure_string_rule.
+
+(** The files handed to the renderer are exactly the imported files of that owner, relative to its
+    folder, without manifest and lock file; in particular a root file with a prefix-only name is
+    rendered in a multi-component package. *)
+Theorem C13_structure_package_files :
+  (forall multi o raw q,
+     In q (package_files multi o raw) <->
+     exists p, In p raw /\ imported p = true /\ owner_in multi p = o /\ q = rel_path o p /\
+               is_manifest_file q = false) /\
+  (forall raw s r, In (s :: r) raw -> s <> COMPONENTS -> imported (s :: r) = true ->
+                   is_manifest_file (s :: r) = false -> In (s :: r) (package_files true Root raw)).
+Proof. exact (conj package_files_char prefix_only_names_rendered). Qed.
+Print Assumptions C13_structure_package_files.
 
 (** The run-time monitor used on the implementation's output accepts every output of the model. *)
 Theorem C13_monitor_sound :
